@@ -246,8 +246,8 @@ func (w *c28World) fail(class, format string, a ...any) {
 	if w.failed == nil {
 		w.failed = map[string]bool{}
 	}
-	if w.failed[class] {
-		return
+	if len(w.fails) > 0 {
+		return // only the FIRST divergence of a history is reported: later ones are consequences
 	}
 	w.failed[class] = true
 	w.fails = append(w.fails, seqx.Fail{Prop: "C28", Key: class, Desc: fmt.Sprintf(format, a...)})
